@@ -4,8 +4,9 @@ Copies /tmp/mut/<ID>/out/<variant>.diff + demo_<variant>.rs (+ the agent's notes
 import sys, os, shutil, json, subprocess
 ID, v, caught, needs = sys.argv[1:5]
 origin = sys.argv[5] if len(sys.argv) > 5 else "independent sub-agent given only the property text and a scratch worktree"
-src = f"/tmp/mut/{ID}/out"
-dst = f"/verif/seeded/{ID}-{v}"
+src = os.environ.get("MUTDIR", "/tmp/mut") + f"/{ID}/out"
+dv = os.environ.get("DESTV", v)
+dst = f"/verif/seeded/{ID}-{dv}"
 os.makedirs(dst, exist_ok=True)
 shutil.copy(f"{src}/{v}.diff", f"{dst}/patch.diff")
 demo = f"{src}/demo_{v}.rs"
@@ -13,7 +14,7 @@ if os.path.exists(demo): shutil.copy(demo, f"{dst}/demo.rs")
 if os.path.exists(f"{src}/notes.md"): shutil.copy(f"{src}/notes.md", f"{dst}/agent-notes.md")
 head = subprocess.check_output(["git","-C","/repo","rev-parse","--short","HEAD"]).decode().strip()
 meta = {
-  "property": ID, "variant": v, "origin": origin,
+  "property": ID, "variant": dv, "origin": origin,
   "needs_to_manifest": needs,
   "applies_to_repo_commit": head,
   "confirmed": "tools/confirm-seeded.sh patch.diff demo.rs in a scratch worktree: demo passes without the patch, fails with it; repository suite (604 tests incl. yaml-test-suite) passes with the patch",
